@@ -104,6 +104,14 @@ Theorem C05_first_complete :
 Proof. intros e ps fuel nnts fs a H. exact (first_complete e ps fuel nnts fs a H). Qed.
 Print Assumptions C05_first_complete.
 
+(* EMPTY symbols in right-hand sides are invisible to first(grammar): the raw grammar the impl
+   holds and the grammar without EMPTY that the rest of the verification uses give the same sets *)
+Theorem C05_first_ignores_empty :
+  forall (e : N) (fuel nnts : nat) (ps : list prod),
+    first_sets e fuel nnts ps = first_sets e fuel nnts (strip_prods e ps).
+Proof. exact first_sets_strip. Qed.
+Print Assumptions C05_first_ignores_empty.
+
 (* the derivation relation agrees with the derivation trees of Spec/Cfg.v *)
 Theorem C05_derives_of_tree :
   forall (g : grammar) (t : tree) (X : sym),
